@@ -440,6 +440,8 @@ func (p *printer) node1(it *item) (string, error) {
 			return "", err
 		}
 		return p.tag(it.l, "assign"+sp+bytesOf(n["name"])+sp+"="+sp+e, it.r), nil
+	case "snap": // the harness's own tag: renders nothing, records what the name is bound to
+		return p.tag(it.l, "lqh_snap"+sp+bytesOf(n["name"])+sp+jstr(n, "label"), it.r), nil
 	case "badobj": // an object that does not parse
 		return p.object(it.l, "1 |", it.r), nil
 	case "badtag": // a known tag whose arguments do not parse
